@@ -121,7 +121,7 @@ class ScriptedRandom:
         return getattr(_random, name)
 
 
-def config_session(earlier_rate):
+def config_session(earlier_rate, warmup=()):
     """Session factory going through monkeytype.trace(config) with ONE Config object that first
     serves a (workload-free) session at `earlier_rate` and then the real one."""
     import monkeytype
@@ -148,9 +148,19 @@ def config_session(earlier_rate):
     cfg = Cfg()
 
     def session(logger, k, flt, rate):
+        from dst.world import rt
+
         state.update({"logger": c02.TeeLogger(), "flt": flt, "rate": earlier_rate, "k": k})
         with monkeytype.trace(cfg):
-            pass
+            # the earlier session is not empty: a few admitted plain calls, so that whatever sampling state a tracer keeps
+            # (counters, countdowns) has been used before the session under test starts
+            for fn in warmup:
+                for _ in range(3):
+                    try:
+                        fn()
+                    except BaseException:
+                        pass
+        rt.reset()   # the journal of the session under test starts empty (no handle is live: only plain calls ran)
         state.update({"logger": logger, "flt": flt, "rate": rate, "k": k})
         return monkeytype.trace(cfg)
 
@@ -165,8 +175,8 @@ def execute_short_sessions(plan, lp):
 
     rate = plan["rate"]
     _random.seed(plan["rng_seed"])
+    gc.collect()   # garbage of earlier runs is finalised (its bodies may journal) before the journal is reset
     rt.reset()
-    gc.collect()
     D.get_driver()
     mat = D.Mat(lp)
     flt, admitted = c02.make_filter(plan, lp)
@@ -214,7 +224,10 @@ def execute(plan):
         _random.seed(plan["rng_seed"])
     session = None
     if "earlier_rate" in plan:
-        session = config_session(plan["earlier_rate"])
+        # plain module-level fixture functions without required parameters, called with an empty script (they fall off the end)
+        warm = [lp.fobj[f["fid"]] for f in lp.spec["funcs"] if f["body"] == "plain" and f["kind"] == "func" and f["fid"] in lp.fobj
+                and not any(p["k"] in ("po", "pk", "ko") and not p.get("d") for p in f["params"])][:2]
+        session = config_session(plan["earlier_rate"], warm)
     try:
         try:
             J, logger, residue, admitted = c02.run_world(plan, lp, sample_rate=rate, session=session)
